@@ -100,8 +100,10 @@ Definition provision (c : tconfig) : option handler :=
    p, the delay of the call after the connection became ready (odelay), the scheduling jitter
    after each timer (oj2, oj3: time between a WaitN returning and the next clock reading), and
    how many bytes the inner Read hands over (oavail: clipped to what was asked and what the
-   inner connection still holds). *)
-Record op := { oc : nat; olen : Z; odelay : Z; oj2 : Z; oj3 : Z; oavail : Z }.
+   inner connection still holds), and the error the inner Read returns together with those bytes
+   (oerr: 0 = nil, 1 = io.EOF, other = another error; io.Reader allows n > 0 with an error, e.g.
+   tls.Conn when close_notify follows the last record). *)
+Record op := { oc : nat; olen : Z; odelay : Z; oj2 : Z; oj3 : Z; oavail : Z; oerr : Z }.
 
 (* One connection entering Handle at sstart; sjit: lateness of the latency timer; scancel: the
    context is cancelled while waiting for the latency timer *)
@@ -111,7 +113,8 @@ Inductive limid := Total | Local (c : nat).
 Inductive ev :=
 | ERes (id : limid) (t n : Z)                       (* successful reservation of n tokens at t *)
 | EBack (id : limid) (j : Z)                        (* a reservation reached the limiter with t = last - j < last *)
-| EPull (c : nat) (t batch : Z) (bytes : list byte) (* inner Read(p[:batch]) at t handed over bytes *)
+| EPull (c : nat) (t batch : Z) (bytes : list byte) (err : Z)
+    (* inner Read(p[:batch]) at t returned (bytes, err); throttledConn.Read returns exactly that: (len bytes, err) *)
 | EErr (c : nat)                                    (* Read returned a limiter error *)
 | EBlock (c : nat).                                 (* Read waits InfDuration *)
 
@@ -165,7 +168,7 @@ Definition read_step (h : handler) (t1 : Z) (w : world) (o : op) : world * list 
           let k := clip (oavail o) 0 (zmin batch (Z.of_nat (length rest))) in
           let bytes := firstn (Z.to_nat k) rest in
           ({| wtotal := stT; wlocal := upd (wlocal w) c stL; winner := upd (winner w) c (skipn (Z.to_nat k) rest) |},
-           e1 ++ e2 ++ [EPull c t3 batch bytes])
+           e1 ++ e2 ++ [EPull c t3 batch bytes (oerr o)])
       end
   end.
 
@@ -193,7 +196,7 @@ Definition run (h : handler) (ss : list session) (ops : list op) : world * list 
 (* ---------------------------------------------------------------- observables of a trace *)
 Definition pull_len (c : option nat) (T : Z) (e : ev) : Z :=
   match e with
-  | EPull c' t _ bytes =>
+  | EPull c' t _ bytes _ =>
       if (t <=? T) && match c with None => true | Some c0 => Nat.eqb c' c0 end then Z.of_nat (length bytes) else 0
   | _ => 0
   end.
@@ -204,7 +207,7 @@ Definition pulled (c : option nat) (T : Z) (tr : list ev) : Z :=
 Fixpoint stream_of (c : nat) (tr : list ev) : list byte :=
   match tr with
   | [] => []
-  | EPull c' _ _ bytes :: r => if Nat.eqb c' c then bytes ++ stream_of c r else stream_of c r
+  | EPull c' _ _ bytes _ :: r => if Nat.eqb c' c then bytes ++ stream_of c r else stream_of c r
   | _ :: r => stream_of c r
   end.
 
